@@ -114,7 +114,9 @@ def get_capacity(tag_memory_size, offset, skip_bytes):
     # To store more than 254 byte ndef we must use three length bytes,
     # otherwise it's only one. But only if the capacity is more than
     # 256 the three length byte format will provide a higher value.
-    capacity -= 4 if capacity > 256 else 2
+    capacity -= 2
+    if capacity > 254:
+        capacity = max(capacity - 2, 254)
     return capacity
 
 
@@ -201,6 +203,8 @@ class Type1Tag(Tag):
                         log.debug("memory tlv has wrong length")
                 elif tlv_t == 0x03:
                     ndef = tlv_v
+                    ndef_tlv_size = tlv_l + (2 if tag_memory[offset+1] != 0xFF
+                                             else 4)
                     break
                 elif tlv_t == 0xFE or tlv_t is None:
                     break
@@ -214,6 +218,11 @@ class Type1Tag(Tag):
             self._ndef_tlv_offset = offset
             self._tag_memory = tag_memory
             self._skip_bytes = skip_bytes
+            if ndef is not None:
+                usable = set(range(offset, tag_memory_size)) - skip_bytes
+                if ndef_tlv_size > len(usable) or len(ndef) > self._capacity:
+                    log.debug("ndef message tlv exceeds the data area")
+                    return None
             return ndef
 
         def _write_ndef_data(self, data):
